@@ -8,7 +8,8 @@ fixes/C07-flat-argmax.patch: first maximum of the row-major flattening, unravell
 `globalRoughAsIs` (the function as it is on the pinned tree: separate argmaxes of the column
 maxima and of the row maxima) and `globalRefineFlat`/`globalPeaks` (`find_global_peaks` with
 `refinement="integral"`), tied to the code by `harness/c07.py`.  Every ordered field `R`, every
-batch shape with `h, w ≥ 1`, every threshold, every odd patch size `2r+1`.
+batch shape with `h, w ≥ 1`, every threshold, every patch size `q ≥ 1` — odd (the crop reads cells)
+or even (the crop reads means of four cells, `Peaks.cropZ`).
 -/
 namespace SleapVerif.C07
 open SleapVerif.Peaks
@@ -83,36 +84,36 @@ theorem global_channel_independent (thr : R) (b : Batch R) (s c : Nat) :
 rough result of (s,c); a valid channel gets `rough + offsets` computed from **its own** map around
 **its own** rough cell, an invalid channel stays NaN; values are untouched.  Holds for any rough
 detector (as-is or repaired). -/
-theorem global_refine_scatter (rough : Nat → Nat → GPeak R) (r : Nat) (b : Batch R) {s c : Nat}
+theorem global_refine_scatter (rough : Nat → Nat → GPeak R) (q : Nat) (b : Batch R) {s c : Nat}
     (hs : s < b.S) (hc : c < b.C) :
-    globalPeaks rough r b s c =
-      ⟨(rough s c).pt, (rough s c).pt.map (fun xy => refinePoint b.h b.w (b.v s c) r xy.1 xy.2), (rough s c).val⟩ := by
+    globalPeaks rough q b s c =
+      ⟨(rough s c).pt, (rough s c).pt.map (fun xy => refinePoint b.h b.w (b.v s c) q xy.1 xy.2), (rough s c).val⟩ := by
   unfold globalPeaks
   have hk : s * b.C + c < b.S * b.C := by
     have : (s + 1) * b.C ≤ b.S * b.C := Nat.mul_le_mul_right _ hs
     rw [Nat.add_mul] at this; omega
-  have := globalRefineFlat_getElem? rough r b (s * b.C + c) hk
+  have := globalRefineFlat_getElem? rough q b (s * b.C + c) hk
   rw [flat_div hc, flat_mod hc, b.flat_index hc] at this
   rw [List.getD_eq_getElem?_getD, this]; rfl
 
 /-- refined results are channel independent too -/
-theorem global_refine_channel_independent (thr : R) (r : Nat) (b : Batch R) {s c : Nat}
+theorem global_refine_channel_independent (thr : R) (q : Nat) (b : Batch R) {s c : Nat}
     (hs : s < b.S) (hc : c < b.C) :
-    globalPeaks (globalRough thr b) r b s c =
-      globalPeaks (globalRough thr (b.single s c)) r (b.single s c) 0 0 := by
-  rw [global_refine_scatter _ r b hs hc,
-      global_refine_scatter _ r (b.single s c) (s := 0) (c := 0) (by simp [Batch.single]) (by simp [Batch.single])]
+    globalPeaks (globalRough thr b) q b s c =
+      globalPeaks (globalRough thr (b.single s c)) q (b.single s c) 0 0 := by
+  rw [global_refine_scatter _ q b hs hc,
+      global_refine_scatter _ q (b.single s c) (s := 0) (c := 0) (by simp [Batch.single]) (by simp [Batch.single])]
   rfl
 
 /-- **Half-patch bound, partial** (as C06; full statement false, F-C06): for a non-negative map
 and a positive threshold every valid channel of the repaired detector is refined to a point
-within `r = (p-1)/2` of its rough cell. -/
-theorem global_refine_bounded_partial (thr : R) (hthr : 0 < thr) (r : Nat) (b : Batch R) {s c : Nat}
+within `(q-1)/2` of its rough cell — every patch size `q ≥ 1`, odd or even. -/
+theorem global_refine_bounded_partial (thr : R) (hthr : 0 < thr) (q : Nat) (hq : 1 ≤ q) (b : Batch R) {s c : Nat}
     (hs : s < b.S) (hc : c < b.C) (hh : 0 < b.h) (hw : 0 < b.w) (hnn : ∀ i j, 0 ≤ b.v s c i j) (x y : Nat)
     (hpt : (globalRough thr b s c).pt = some (x, y)) :
-    ∃ px py, (globalPeaks (globalRough thr b) r b s c).pt = some (some (px, py)) ∧
-      |px - x| ≤ r ∧ |py - y| ≤ r := by
-  rw [global_refine_scatter _ r b hs hc, hpt]
+    ∃ px py, (globalPeaks (globalRough thr b) q b s c).pt = some (some (px, py)) ∧
+      |px - x| ≤ ((q : R) - 1) / 2 ∧ |py - y| ≤ ((q : R) - 1) / 2 := by
+  rw [global_refine_scatter _ q b hs hc, hpt]
   obtain ⟨hx, hy, hval, _⟩ := global_attains_max thr b.h b.w (b.v s c) x y hh hw hpt
   have hge : ¬ (globalRough thr b s c).val < thr := by
     intro hlt
@@ -125,108 +126,117 @@ theorem global_refine_bounded_partial (thr : R) (hthr : 0 < thr) (r : Nat) (b : 
     unfold globalRough at hge
     rw [hval] at hge
     exact lt_of_lt_of_le hthr (not_lt.mp hge)
-  obtain ⟨px, py, h1, h2, h3⟩ := refinePoint_bounded_of_nonneg_map b.h b.w (b.v s c) r x y hx hy hnn hpos
+  obtain ⟨px, py, h1, h2, h3⟩ := refinePoint_bounded_of_nonneg_map b.h b.w (b.v s c) q x y hq hx hy hnn hpos
+  rw [halfSpan_eq hq] at h2 h3
   exact ⟨px, py, by simp [h1], h2, h3⟩
 
-/-- **A symmetric bump centred on a cell is left unmoved**: if the patch around the rough cell is
-mirror-symmetric in x and in y (and its sum is not 0) the refined point is the cell itself. -/
-theorem global_refine_symmetric_fixed (h w : Nat) (img : Nat → Nat → R) (r x y : Nat)
-    (hz : patchSum r (patch h w img r x y) < 0 ∨ 0 < patchSum r (patch h w img r x y))
-    (hsx : ∀ a b, a < 2*r+1 → b < 2*r+1 → patch h w img r x y a (2*r - b) = patch h w img r x y a b)
-    (hsy : ∀ a b, a < 2*r+1 → b < 2*r+1 → patch h w img r x y (2*r - a) b = patch h w img r x y a b) :
-    refinePoint h w img r x y = some ((x : R), (y : R)) := by
-  have hx0 := xNum_zero_of_symm r _ hsx
-  have hy0 : yNum r (patch h w img r x y) = 0 := by
+/-- **A symmetric bump centred on a cell is left unmoved** — every patch size: if the cropped patch
+around the rough cell is mirror-symmetric in x and in y (and its sum is not 0) the refined point
+is the cell itself.  (For even `q` the crop holds means of four cells; it is symmetric whenever the
+map is symmetric about the cell.) -/
+theorem global_refine_symmetric_fixed (h w : Nat) (img : Nat → Nat → R) (q x y : Nat)
+    (hz : patchSum q (patch h w img q x y) < 0 ∨ 0 < patchSum q (patch h w img q x y))
+    (hsx : ∀ a b, a < q → b < q → patch h w img q x y a (q - 1 - b) = patch h w img q x y a b)
+    (hsy : ∀ a b, a < q → b < q → patch h w img q x y (q - 1 - a) b = patch h w img q x y a b) :
+    refinePoint h w img q x y = some ((x : R), (y : R)) := by
+  have hx0 := xNum_zero_of_symm q _ hsx
+  have hy0 : yNum q (patch h w img q x y) = 0 := by
     rw [yNum_eq_xNum_transpose]
-    exact xNum_zero_of_symm r _ fun a b ha hb => hsy b a hb ha
+    exact xNum_zero_of_symm q _ fun a b ha hb => hsy b a hb ha
   unfold refinePoint integralOffsets
   simp only
   rw [if_pos hz, hx0, hy0]
   simp
 
-example : refinePoint (R := Rat) 3 3 (fun i j => if i = 1 ∧ j = 1 then 1 else if i = 1 ∨ j = 1 then 1/2 else 1/4) 1 1 1
+example : refinePoint (R := Rat) 3 3 (fun i j => if i = 1 ∧ j = 1 then 1 else if i = 1 ∨ j = 1 then 1/2 else 1/4) 3 1 1
     = some (1, 1) := by decide +kernel
+/-- even patch size 4 on a 5×5 map symmetric about cell (2,2): unmoved as well -/
+example : refinePoint (R := Rat) 5 5 (fun i j => if i = 2 ∧ j = 2 then 1 else if i = 2 ∨ j = 2 then 1/2 else 1/4) 4 2 2
+    = some (2, 2) := by decide +kernel
 
-/-- **Refinement moves toward the true centre** (pairing argument `b ↔ 2r−b`, no `exp` needed):
-for *any* even, radially non-increasing profile `g(d²)` — Gaussians of every σ included — centred
-at `(cx+δx, cy+δy)` and a patch that lies inside the map, the refined point is displaced from
-the rough cell `(cx,cy)` in the direction of the true centre, in x and in y separately (and is
-not displaced when the offset is 0). -/
-theorem global_refine_toward_centre (h w : Nat) (img : Nat → Nat → R) (g : R → R) (r cx cy : Nat) (δx δy : R)
-    (hx0 : r ≤ cx) (hx1 : cx + r < w) (hy0 : r ≤ cy) (hy1 : cy + r < h)
+/-- **Refinement moves toward the true centre** (pairing argument `b ↔ q−1−b`, no `exp` needed),
+**every patch size `q`, odd or even**: for *any* even, radially non-increasing profile `g(d²)` —
+Gaussians of every σ included — centred at `(cx+δx, cy+δy)` and a crop that lies inside the map
+(`q/2 ≤ cx`, `cx + q/2 < w`, same in y), the refined point is displaced from the rough cell
+`(cx,cy)` in the direction of the true centre, in x and in y separately (and is not displaced
+when the offset is 0). -/
+theorem global_refine_toward_centre (h w : Nat) (img : Nat → Nat → R) (g : R → R) (q cx cy : Nat) (δx δy : R)
+    (hx0 : q / 2 ≤ cx) (hx1 : cx + q / 2 < w) (hy0 : q / 2 ≤ cy) (hy1 : cy + q / 2 < h)
     (himg : ∀ i j, i < h → j < w → img i j = g (((j : R) - (cx + δx))^2 + ((i : R) - (cy + δy))^2))
     (anti : ∀ u v, 0 ≤ u → u ≤ v → g v ≤ g u)
-    (hz : 0 < patchSum r (patch h w img r cx cy)) :
-    ∃ px py, refinePoint h w img r cx cy = some (px, py) ∧
+    (hz : 0 < patchSum q (patch h w img q cx cy)) :
+    ∃ px py, refinePoint h w img q cx cy = some (px, py) ∧
       (0 ≤ δx → (cx : R) ≤ px) ∧ (δx ≤ 0 → px ≤ cx) ∧ (0 ≤ δy → (cy : R) ≤ py) ∧ (δy ≤ 0 → py ≤ cy) := by
-  have B := bumpPatch_of_map img g δx δy hx0 hx1 hy0 hy1 himg anti
-  refine ⟨_, _, by unfold refinePoint; rw [integralOffsets_of_pos r _ hz]; rfl, ?_, ?_, ?_, ?_⟩
+  have B : BumpMap h w img g q cx cy δx δy := ⟨hx0, hx1, hy0, hy1, himg⟩
+  have hy := yNum_eq_xNum_patch_transpose h w img q cx cy
+  refine ⟨_, _, by unfold refinePoint; rw [integralOffsets_of_pos q _ hz]; rfl, ?_, ?_, ?_, ?_⟩
   · intro hδ
-    have := xNum_nonneg r _ (bump_dom_right B hδ)
-    have : 0 ≤ xNum r (patch h w img r cx cy) / patchSum r (patch h w img r cx cy) := div_nonneg this (le_of_lt hz)
+    have := B.xNum_nonneg anti hδ
+    have : 0 ≤ xNum q (patch h w img q cx cy) / patchSum q (patch h w img q cx cy) := div_nonneg this (le_of_lt hz)
     simp only; linarith
   · intro hδ
-    have := xNum_nonpos r _ (bump_dom_left B hδ)
-    have : xNum r (patch h w img r cx cy) / patchSum r (patch h w img r cx cy) ≤ 0 :=
+    have := B.xNum_nonpos anti hδ
+    have : xNum q (patch h w img q cx cy) / patchSum q (patch h w img q cx cy) ≤ 0 :=
       div_nonpos_of_nonpos_of_nonneg this (le_of_lt hz)
     simp only; linarith
   · intro hδ
-    have := xNum_nonneg r _ (bump_dom_right B.transpose hδ)
-    rw [← yNum_eq_xNum_transpose] at this
-    have : 0 ≤ yNum r (patch h w img r cx cy) / patchSum r (patch h w img r cx cy) := div_nonneg this (le_of_lt hz)
+    have := B.transpose.xNum_nonneg anti hδ
+    rw [← hy] at this
+    have : 0 ≤ yNum q (patch h w img q cx cy) / patchSum q (patch h w img q cx cy) := div_nonneg this (le_of_lt hz)
     simp only; linarith
   · intro hδ
-    have := xNum_nonpos r _ (bump_dom_left B.transpose hδ)
-    rw [← yNum_eq_xNum_transpose] at this
-    have : yNum r (patch h w img r cx cy) / patchSum r (patch h w img r cx cy) ≤ 0 :=
+    have := B.transpose.xNum_nonpos anti hδ
+    rw [← hy] at this
+    have : yNum q (patch h w img q cx cy) / patchSum q (patch h w img q cx cy) ≤ 0 :=
       div_nonpos_of_nonpos_of_nonneg this (le_of_lt hz)
     simp only; linarith
 
 /-- strict version: a strictly decreasing profile and a non-zero offset give a non-zero move in
-the right direction (patch size ≥ 3). -/
-theorem global_refine_toward_centre_strict (h w : Nat) (img : Nat → Nat → R) (g : R → R) (r cx cy : Nat) (δx δy : R)
-    (hr : 1 ≤ r) (hx0 : r ≤ cx) (hx1 : cx + r < w) (hy0 : r ≤ cy) (hy1 : cy + r < h)
+the right direction (patch size ≥ 2). -/
+theorem global_refine_toward_centre_strict (h w : Nat) (img : Nat → Nat → R) (g : R → R) (q cx cy : Nat) (δx δy : R)
+    (hq : 2 ≤ q) (hx0 : q / 2 ≤ cx) (hx1 : cx + q / 2 < w) (hy0 : q / 2 ≤ cy) (hy1 : cy + q / 2 < h)
     (himg : ∀ i j, i < h → j < w → img i j = g (((j : R) - (cx + δx))^2 + ((i : R) - (cy + δy))^2))
     (santi : ∀ u v, 0 ≤ u → u < v → g v < g u)
-    (hz : 0 < patchSum r (patch h w img r cx cy)) :
-    ∃ px py, refinePoint h w img r cx cy = some (px, py) ∧
+    (hz : 0 < patchSum q (patch h w img q cx cy)) :
+    ∃ px py, refinePoint h w img q cx cy = some (px, py) ∧
       (0 < δx → (cx : R) < px) ∧ (δx < 0 → px < cx) ∧ (0 < δy → (cy : R) < py) ∧ (δy < 0 → py < cy) := by
-  have anti : ∀ u v, 0 ≤ u → u ≤ v → g v ≤ g u := by
-    intro u v hu huv
-    rcases lt_or_eq_of_le huv with h1 | h1
-    · exact le_of_lt (santi u v hu h1)
-    · rw [h1]
-  have B := bumpPatch_of_map img g δx δy hx0 hx1 hy0 hy1 himg anti
-  refine ⟨_, _, by unfold refinePoint; rw [integralOffsets_of_pos r _ hz]; rfl, ?_, ?_, ?_, ?_⟩
+  have B : BumpMap h w img g q cx cy δx δy := ⟨hx0, hx1, hy0, hy1, himg⟩
+  have hy := yNum_eq_xNum_patch_transpose h w img q cx cy
+  refine ⟨_, _, by unfold refinePoint; rw [integralOffsets_of_pos q _ hz]; rfl, ?_, ?_, ?_, ?_⟩
   · intro hδ
-    have := xNum_pos r hr _ (bump_sdom_right B santi hδ)
-    have : 0 < xNum r (patch h w img r cx cy) / patchSum r (patch h w img r cx cy) := div_pos this hz
+    have := B.xNum_pos hq santi hδ
+    have : 0 < xNum q (patch h w img q cx cy) / patchSum q (patch h w img q cx cy) := div_pos this hz
     simp only; linarith
   · intro hδ
-    have := xNum_neg r hr _ (bump_sdom_left B santi hδ)
-    have : xNum r (patch h w img r cx cy) / patchSum r (patch h w img r cx cy) < 0 := div_neg_of_neg_of_pos this hz
+    have := B.xNum_neg hq santi hδ
+    have : xNum q (patch h w img q cx cy) / patchSum q (patch h w img q cx cy) < 0 := div_neg_of_neg_of_pos this hz
     simp only; linarith
   · intro hδ
-    have := xNum_pos r hr _ (bump_sdom_right B.transpose santi hδ)
-    rw [← yNum_eq_xNum_transpose] at this
-    have : 0 < yNum r (patch h w img r cx cy) / patchSum r (patch h w img r cx cy) := div_pos this hz
+    have := B.transpose.xNum_pos hq santi hδ
+    rw [← hy] at this
+    have : 0 < yNum q (patch h w img q cx cy) / patchSum q (patch h w img q cx cy) := div_pos this hz
     simp only; linarith
   · intro hδ
-    have := xNum_neg r hr _ (bump_sdom_left B.transpose santi hδ)
-    rw [← yNum_eq_xNum_transpose] at this
-    have : yNum r (patch h w img r cx cy) / patchSum r (patch h w img r cx cy) < 0 := div_neg_of_neg_of_pos this hz
+    have := B.transpose.xNum_neg hq santi hδ
+    rw [← hy] at this
+    have : yNum q (patch h w img q cx cy) / patchSum q (patch h w img q cx cy) < 0 := div_neg_of_neg_of_pos this hz
     simp only; linarith
 
-/-- hypotheses satisfiable: the profile `g(u) = 4 - u` on a 3×3 map at ℚ, centre offset (1/4, 0):
-the refined x moves right of the cell. -/
-example : ∃ px py, refinePoint (R := Rat) 3 3
-      (fun i j => 4 - (((j : Rat) - ((1 : Nat) + 1/4))^2 + ((i : Rat) - ((1 : Nat) + 0))^2)) 1 1 1 = some (px, py) ∧
-      ((1 : Nat) : Rat) < px := by
-  obtain ⟨px, py, h, h1, _⟩ := global_refine_toward_centre_strict (R := Rat) 3 3
-    (fun i j => 4 - (((j : Rat) - ((1 : Nat) + 1/4))^2 + ((i : Rat) - ((1 : Nat) + 0))^2)) (fun u => 4 - u)
-    1 1 1 (1/4) 0 (by omega) (by omega) (by omega) (by omega) (by omega)
-    (fun i j _ _ => rfl) (fun u v _ huv => by linarith)
-    (by rw [patchSum_eq]; simp [Finset.sum_range_succ, patch, zeroPadAt, inB]; norm_num)
+/-- hypotheses satisfiable, odd and even patch: the profile `g(u) = 9 - u` on a 5×5 map at ℚ, centre
+offset (1/4, 0) from cell (2,2): the refined x moves right of the cell for `q = 3` and `q = 4`. -/
+example : ∀ q ∈ [3, 4], ∃ px py, refinePoint (R := Rat) 5 5
+      (fun i j => 9 - (((j : Rat) - ((2 : Nat) + 1/4))^2 + ((i : Rat) - ((2 : Nat) + 0))^2)) q 2 2 = some (px, py) ∧
+      ((2 : Nat) : Rat) < px := by
+  intro q hq
+  have hq' : q = 3 ∨ q = 4 := by simpa using hq
+  have hz : 0 < patchSum q (patch (R := Rat) 5 5
+      (fun i j => 9 - (((j : Rat) - ((2 : Nat) + 1/4))^2 + ((i : Rat) - ((2 : Nat) + 0))^2)) q 2 2) := by
+    rcases hq' with rfl | rfl <;>
+      (rw [patchSum_eq]; simp [Finset.sum_range_succ, patch, cropZ, zeroPadAt, inB]; norm_num)
+  obtain ⟨px, py, h, h1, _⟩ := global_refine_toward_centre_strict (R := Rat) 5 5
+    (fun i j => 9 - (((j : Rat) - ((2 : Nat) + 1/4))^2 + ((i : Rat) - ((2 : Nat) + 0))^2)) (fun u => 9 - u)
+    q 2 2 (1/4) 0 (by omega) (by omega) (by omega) (by omega) (by omega)
+    (fun i j _ _ => rfl) (fun u v _ huv => by linarith) hz
   exact ⟨px, py, h, h1 (by norm_num)⟩
 
 end SleapVerif.C07
